@@ -581,6 +581,10 @@ PROPS["C08"]["assumptions"].append("engine Z adds four single real-thread execut
 
 
 # C12, order independence at function level: every permutation of the entry lists
+PROPS["C17"]["quick"].append({"engine": "S", "bin": "c13", "args": ["argnames"]})
+PROPS["C17"]["thorough"].append({"engine": "S", "bin": "c13", "args": ["argnames"]})
+META["C17"]["engine"] = "Z+S"
+PROPS["C17"]["assumptions"].append("argument lists with repeated labels are outside the zoo (every black-box oracle identifies a case by its path); for them engine S checks, on the real BenchArgs / EntryTree code, that every value of every list of <= 4 values over a 3-letter alphabet gets one label, its own rendering, leading back to its own position, under every sort - which position the runner then fetches is not observed for repeated labels")
 PROPS["C12"]["quick"].append({"engine": "S", "bin": "c13", "args": ["perm"], "parts": 8})
 PROPS["C12"]["thorough"].append({"engine": "S", "bin": "c13", "args": ["perm"], "parts": 16, "timeout": 3000})
 META["C12"]["engine"] = "Z+S"
@@ -602,3 +606,5 @@ PROPS["C08"]["quick"].append({"engine": "S", "bin": "loopmc", "args": ["--prop",
 PROPS["C08"]["thorough"].append({"engine": "S", "bin": "loopmc", "args": ["--prop", "C08"], "parts": 8})
 META["C08"]["engine"] = "L+S+Z"
 PROPS["C08"]["assumptions"].append("engine S re-uses the C01 enumeration (T = 1, panic at the first / second / last execution of every site) for the clause that a panic ends the run with a panic on the calling thread; loom scenarios add panics in the second round for T = 2")
+
+PROPS["C20"]["assumptions"].append("argument lists with repeated labels (two cases under one path) are outside the zoo: which argument the runner fetches for the second of two equal labels is not observed (open gap, DESIGN 10.8; seeded/C20-r13-arg-index-by-label-equality is not detected)")
